@@ -294,7 +294,11 @@ func EncodeRemainLength(r io.ByteReader) (int, error) {
 	var multiplier uint32
 	for {
 		digit, err := r.ReadByte()
-		if err != nil && err != io.EOF {
+		if err != nil {
+			if err == io.EOF {
+				// the input ends inside the variable byte integer
+				err = io.ErrUnexpectedEOF
+			}
 			return 0, err
 		}
 		vbi |= uint32(digit&127) << multiplier
